@@ -43,6 +43,7 @@ OLD = "===D===\nMETA:\n  TYPE::X\n---\nA::1\nK::old\n===END===\n"
 NEW_CONTENT = "===D===\nMETA:\n  TYPE::X\n---\nA::1\nK :: new -> value\nB:\n    C::[x,y,z]\n===END===\n"
 BIG_CONTENT = "===D===\n" + "".join(f"K{i}::\"{'x' * 120} {i}\"\n" for i in range(120)) + "===END===\n"
 NONCANON_OLD = "===D===\nA :: 1\nK::old\n"
+EXTERNAL = "===D===\nMETA:\n  TYPE::X\n---\nA::1\nK::external\nE::[9,9]\n===END===\n"
 
 
 def sha(s):
@@ -67,6 +68,11 @@ def scenarios(quick):
                 out.append(dict(entry=entry, kind="normalize", base=base, parent="present", fmode=0o600))
             out.append(dict(entry=entry, kind="overwrite_big", base="match", parent="present", fmode=0o644))
             out.append(dict(entry=entry, kind="overwrite_lenient", base=None, parent="present", fmode=0o644))
+            # the existing file is already canonical EXCEPT for its CRLF / bare-CR line ends
+            out.append(dict(entry=entry, kind="normalize_crlf", base=None, parent="present", fmode=0o644))
+            out.append(dict(entry=entry, kind="normalize_crlf", base="match", parent="present", fmode=0o644))
+            out.append(dict(entry=entry, kind="same_content_crlf", base=None, parent="present", fmode=0o644))
+            out.append(dict(entry=entry, kind="noop_change_cr", base=None, parent="present", fmode=0o644))
     return out
 
 
@@ -110,6 +116,10 @@ def prepare(sc):
     prev = None
     if sc["kind"] != "new":
         prev = NONCANON_OLD if sc["kind"] == "normalize" else OLD
+        if sc["kind"] in ("normalize_crlf", "same_content_crlf"):
+            prev = OLD.replace("\n", "\r\n")
+        elif sc["kind"] == "noop_change_cr":
+            prev = OLD.replace("\n", "\r")
         with open(target, "w", encoding="utf-8", newline="") as f:
             f.write(prev)
         os.chmod(target, sc["fmode"])
@@ -119,7 +129,8 @@ def prepare(sc):
 def make_call(sc, target, prev):
     base = None
     if sc["base"] == "match":
-        base = sha(prev) if prev is not None else sha("nothing")
+        # the tool hashes the text as READ (universal newlines): a client that read the file through the tool holds that hash
+        base = sha(prev.replace("\r\n", "\n").replace("\r", "\n")) if prev is not None else sha("nothing")
     elif sc["base"] == "stale":
         base = sha("something else")
     kind = sc["kind"]
@@ -136,6 +147,10 @@ def make_call(sc, target, prev):
             kw.update(content="Just prose here, no octave at all", lenient=True)
         elif kind == "changes":
             kw["changes"] = {"K": "new", "ADDED": [1, 2, 3]}
+        elif kind == "same_content_crlf":
+            kw["content"] = OLD
+        elif kind == "noop_change_cr":
+            kw["changes"] = {"K": "old"}
 
         def fn():
             return asyncio.run(tool.execute(**kw))
@@ -299,6 +314,7 @@ def power_loss_states(sb, target, log, prev):
 def check_scenario(case) -> Res:
     sc, quick = case
     ref, ref_snap, prev, pmode = reference(sc)
+    ref_target = os.path.join(_root(), "sb", "sub", "deep", "f.oct.md") if sc["parent"] == "missing" else os.path.join(_root(), "sb", "f.oct.md")
     viol = {}
     extra = []
     execs = 1
@@ -364,21 +380,172 @@ def check_scenario(case) -> Res:
                 for e2 in second:
                     r2, snap2, sb2, t2 = run_dev(("fail2", k, e1, k2, e2), mode=shim.LOG | shim.FAIL, fail_k=k, fail_errno=e1, fail_k2=k2, fail_errno2=e2)
                     record(("fail2", k, k2), judge(sc, ("fail2", k, k2), r2, snap2, prev, pmode, new_bytes, r2["log"]), r2, snap2)
+    # (e) an external, non-cooperating modification of the target lands immediately before call k (between two steps of the
+    #     write path): an error return must leave the environment's bytes and no temp file; a success must be complete
+    if prev is not None:
+        ext_b = EXTERNAL.encode("utf-8")
+        # only modifications that land BEFORE the install step count: one after it is simply a later write by someone else
+        k_install = min([e["k"] for e in ref["log"] if e["k"] >= 0 and e["op"] == "rename" and e["arg"] == ref_target] + [N - 1])
+        for k in range(k_install + 1):
+            r, snap, sb, target = run_dev(("edit", k), mode=shim.LOG | shim.EDIT, edit=(k, os.path.join(_root(), "sb", "f.oct.md"), EXTERNAL))
+            if not any(e["op"] == "EDIT" for e in r["log"]):
+                continue
+            probs = []
+            tb = snap["target_bytes"]
+            if r["raised"]:
+                probs.append((f"call-raised:{r['raised'].split(':')[0]}", r["raised"][:300], "an error envelope, never an exception"))
+            elif r["status"] != 0 or r["result"] is None:
+                probs.append((f"child-died:{r['status']}", str(r["status"]), "normal return"))
+            else:
+                res = r["result"]
+                if res.get("status") == "error":
+                    if tb != ext_b:
+                        probs.append(("error-returned-but-target-changed", f"target={tb!r}"[:300], "the externally written bytes, untouched"))
+                    if snap["tmps"]:
+                        probs.append(("error-returned-but-temp-file-left", str(snap["tmps"]), "no *.tmp sibling"))
+                elif res.get("status") == "success":
+                    if tb is None or hashlib.sha256(tb).hexdigest() != res.get("canonical_hash"):
+                        probs.append(("success-but-hash-mismatch", f"target={tb!r} hash={res.get('canonical_hash')}"[:300], "sha256(file) == canonical_hash"))
+                    if snap["tmps"]:
+                        probs.append(("success-but-temp-file-left", str(snap["tmps"]), "no *.tmp sibling"))
+                if snap["target_mode"] != pmode:
+                    probs.append(("mode-changed", oct(snap["target_mode"] or 0), oct(pmode)))
+            record(("edit", k), probs, r, snap)
+            extra.append((json.dumps(sc, sort_keys=True), "edit", k, (r["result"] or {}).get("status"), hashlib.sha1(repr(tb).encode()).hexdigest()))
     return Res("ok" if not viol else "violations", nontrivial=None, extra_nontrivial=extra, violations=list(viol.values()), transitions=execs)
+
+
+# ---------------------------------------------------------------- faults as PYTHON code sees them (transient, one occurrence)
+PY_ERRNOS = [errno.EINTR, errno.EIO, errno.ENOSPC]
+
+
+class _FileProxy:
+    def __init__(self, f, inj):
+        self._f, self._inj = f, inj
+
+    def write(self, data):
+        self._inj("file.write")
+        return self._f.write(data)
+
+    def flush(self):
+        self._inj("file.flush")
+        return self._f.flush()
+
+    def __enter__(self):
+        self._f.__enter__()
+        return self
+
+    def __exit__(self, *a):
+        return self._f.__exit__(*a)
+
+    def __getattr__(self, name):
+        return getattr(self._f, name)
+
+
+def _py_run(fn, sb, plan):
+    """Run fn() with the write path's OS-facing Python calls wrapped.  plan = None: count only; plan = (name, j, errno): the j-th
+    call of `name` raises OSError(errno) ONCE - every later call goes through (a transient fault, e.g. EINTR surfacing as
+    InterruptedError).  Returns (calls made [names], result | None, raised | None)."""
+    import tempfile as _tf
+    calls = []
+    fired = []
+
+    def inj(name):
+        calls.append(name)
+        if plan and not fired and name == plan[0] and calls.count(name) - 1 == plan[1]:
+            fired.append(1)
+            raise OSError(plan[2], os.strerror(plan[2]))
+
+    def in_sb(p):
+        try:
+            return isinstance(p, (str, bytes, os.PathLike)) and os.fspath(p).startswith(sb)
+        except Exception:
+            return False
+
+    saved = {}
+
+    def wrap(mod, attr, name, path_arg=True):
+        real = getattr(mod, attr)
+        saved[(mod, attr)] = real
+
+        def w(*a, **kw):
+            if not path_arg or (a and in_sb(a[0])) or in_sb(kw.get("dir")) or in_sb(kw.get("path")):
+                inj(name)
+            return real(*a, **kw)
+        setattr(mod, attr, w)
+
+    wrap(os, "fsync", "os.fsync", path_arg=False)
+    wrap(os, "fchmod", "os.fchmod", path_arg=False)
+    wrap(os, "replace", "os.replace")
+    wrap(os, "rename", "os.rename")
+    wrap(os, "unlink", "os.unlink")
+    wrap(os, "remove", "os.remove")
+    wrap(os, "chmod", "os.chmod")
+    wrap(_tf, "mkstemp", "tempfile.mkstemp")
+    real_fdopen = os.fdopen
+    saved[(os, "fdopen")] = real_fdopen
+
+    def fdopen(*a, **kw):
+        inj("os.fdopen")
+        return _FileProxy(real_fdopen(*a, **kw), inj)
+    os.fdopen = fdopen
+    res = raised = None
+    try:
+        res = fn()
+    except BaseException as e:      # noqa: BLE001
+        raised = f"{type(e).__name__}: {e}"
+    finally:
+        for (mod, attr), real in saved.items():
+            setattr(mod, attr, real)
+    return calls, res, raised, bool(fired)
+
+
+def check_pyfaults(case) -> Res:
+    sc, quick = case
+    sb, target, prev, pmode = prepare(sc)
+    calls, res, raised, _ = _py_run(make_call(sc, target, prev), sb, None)
+    ref_snap = snapshot(sb, target)
+    cs0 = dict(scenario=sc, layer="python")
+    if raised or not isinstance(res, dict):
+        return Res("reference-failed", violations=[dict(descriptor="py:fault-free-run-failed", case=cs0, observed=str(raised or res)[:300], expected="normal return")])
+    new_bytes = ref_snap["target_bytes"] if res.get("status") == "success" else None
+    viol = {}
+    extra = []
+    n = 0
+    for name in sorted(set(calls)):
+        for j in range(calls.count(name)):
+            for e1 in PY_ERRNOS:
+                sb, target, prev2, pm2 = prepare(sc)
+                c2, r2, raised2, fired = _py_run(make_call(sc, target, prev2), sb, (name, j, e1))
+                n += 1
+                if not fired:
+                    continue
+                snap = snapshot(sb, target)
+                r = dict(raised=raised2, status=0, result=r2, log=[])
+                probs = judge(sc, ("pyfail", name, j), r, snap, prev, pmode, new_bytes, [])
+                if name in ("os.unlink", "os.remove"):
+                    probs = [p for p in probs if "temp-file-left" not in p[0]]      # the fault hit the clean-up call itself
+                for desc, obs, exp in probs:
+                    key = f"{sc['entry']}:py:{desc}:{name}:{errno.errorcode.get(e1, e1)}"
+                    viol.setdefault(key, dict(descriptor=key, case=dict(scenario=sc, layer="python", fault=[name, j, e1]), observed=f"{obs} | python calls={c2[-10:]}"[:700], expected=exp))
+                extra.append((json.dumps(sc, sort_keys=True), "py", name, j, e1, (r2 or {}).get("status") if isinstance(r2, dict) else None,
+                              hashlib.sha1(repr(snap["target_bytes"]).encode()).hexdigest()))
+    return Res("ok" if not viol else "violations", extra_nontrivial=extra, violations=list(viol.values()), transitions=n + 1)
 
 
 def run(ctx):
     scs = scenarios(ctx.quick)
     ctx.coverage["bounds"] = {"scenarios": len(scs), "errnos": [errno.errorcode[e] for e in ERRNOS], "pairs": "second errno EIO after first EIO" if ctx.quick else "all 25 errno pairs"}
     st = ctx.explore("faults", [(sc, ctx.quick) for sc in scs], check_scenario, chunk=1)
-    ctx.coverage["executions"] = st.transitions
+    st2 = ctx.explore("py_faults", [(sc, ctx.quick) for sc in scs], check_pyfaults, chunk=1)
+    ctx.coverage["executions"] = st.transitions + st2.transitions
     _cleanup()
 
 
 def replay(ctx, rp):
     c = rp["case"]
     try:
-        r = check_scenario((c["scenario"], False))
+        r = check_pyfaults((c["scenario"], False)) if c.get("layer") == "python" else check_scenario((c["scenario"], False))
         return [v for v in r.violations if v["descriptor"] == rp.get("descriptor")] or []
     finally:
         _cleanup()
